@@ -76,7 +76,7 @@ def hard_cases(d):
     prog = case["prog"]
     cls = flat.cls_of(prog)
     fs = cls["fields"]
-    cand = [f for f in fs if f["rand"] and f["kind"] != "enum" and "[" not in f["name"]]
+    cand = [f for f in fs if f["rand"] and f["kind"] != "enum"]
     if not cand:
         fs[0].update({"kind": "bit", "w": 3, "signed": False, "rand": True, "init": 0})
         fs[0].pop("enum", None)
